@@ -166,6 +166,40 @@ theorem unbalanced_cell_reported_closed (env : Validate.Env) (kB : RIssue) (cfg 
   obtain ⟨i, hi, h1, h2, h3, h4, h5⟩ := cell_errors_kept_closed env kB cfg T out h k r hk c name x hc _ hv
   exact ⟨i, hi, h1, by rw [h2]; show Validate.Kind.parentheses.sev < 10; decide, h3, h4, h5⟩
 
+/-! #### rows with a malformed cell: row-level checks on the concatenated cell trees (`validateClosedCells`) -/
+
+/-- `cells_eq_closed`: if no row reaches the row-level checks with a malformed cell, the variant that takes the cells'
+trees is the closed pipeline itself. -/
+theorem cells_eq_closed (env : Validate.Env) (kB : RIssue) (cfg : Cfg) (T : List Row)
+    (h : T.any (rowSplit env kB cfg) = false) : validateClosedCells env kB cfg T = validateClosed env kB cfg T := by
+  have hs : splitRows env kB cfg T = [] := by
+    simp only [splitRows, List.filter_eq_nil_iff]
+    intro r hr
+    simp only [List.any_eq_false] at h
+    exact h r hr
+  unfold validateClosedCells validateClosed closeCfg cellsOracle
+  simp [hs]
+
+/-- `total_closed_cells`: the variant never raises either (with the two repairs). -/
+theorem total_closed_cells (env : Validate.Env) (kB : RIssue) (cfg : Cfg) (T : List Row) (hm : cfg.maskByRow = true)
+    (hg : cfg.guardDelay = true) : ∃ out, validateClosedCells env kB cfg T = .ok out :=
+  total { cfg with o := cellsOracle env kB cfg T } T hm hg
+
+/-- `cell_errors_kept_closed_cells`: every `Validate.basic` issue of a looked-at cell is reported by the variant too,
+with the file row and the column of the cell (in particular the malformed cell itself is reported). -/
+theorem cell_errors_kept_closed_cells (env : Validate.Env) (kB : RIssue) (cfg : Cfg) (T : List Row) (out : List Issue)
+    (h : validateClosedCells env kB cfg T = .ok out) (k : Nat) (r : Row) (hk : T[k]? = some r) (c : Nat) (name x : Str)
+    (hc : (c, name, x) ∈ live cfg r) (vi : Validate.Issue) (hv : vi ∈ Validate.basic env false x) :
+    ∃ i ∈ out, i.kind = vi.code ++ [':'] ++ vi.kind.name ∧ i.sev = vi.sev ∧ i.row = some (k + cfg.rowAdj) ∧
+      i.col = some name ∧ i.text = x :=
+  cell_errors_kept { cfg with o := cellsOracle env kB cfg T } T out h k r hk c name x hc (rissue vi)
+    (List.mem_map_of_mem hv)
+
+/-- `eval_closed_cells`: the driver's table-driven evaluation of the variant. -/
+theorem eval_closed_cells (env : Validate.Env) (kB : RIssue) (cfg : Cfg) (T : List Row) (texts : List Str) :
+    validate { cfg with o := memoTab (cellsOracle env kB cfg T) texts } T = validateClosedCells env kB cfg T := by
+  rw [memoTab_eq]; rfl
+
 /-- `shuffle_closed`: the shuffle theorem for the closed pipeline. -/
 theorem shuffle_closed (env : Validate.Env) (kB : RIssue) (cfg : Cfg) (S T : List Row) (hon : cfg.hasOnset = true)
     (hm : cfg.maskByRow = true) (hS : monotone (S.map (·.onset)) = true) (hperm : T.Perm S)
